@@ -17,6 +17,7 @@ def parseAction (j : Json) : Except String Action := do
   | "get" => pure (.get (← argNat j "o") (← argBool j "fu"))
   | "fetch" => pure (.fetch (← argNat j "o") (← natList j "as"))
   | "read" => pure (.read (← argNat j "o") (← argNat j "a"))
+  | "find" => pure (.find (← argNat j "o") (← argNat j "a") (← argInt j "v"))
   | "write" => pure (.write (← argNat j "o") (← argNat j "a") (← argInt j "v"))
   | "flush" => pure .flush
   | "commit" => pure .commit
